@@ -167,6 +167,5 @@ def run(check, ctx):
     # GHASH (the tag of GCM) in both native implementations
     from . import c_ghash
     c_ghash.ghash_tables(check, ctx)
-    check.undecided.append("equality of the expected tag with the mode's "
-                           "specification for every input (GHASH, CBC-MAC, "
-                           "OMAC, S2V, OCB arithmetic; Poly1305 beyond the boundary table)")
+    check.undecided.append("equality of the expected tag with the mode's specification beyond the tables: CBC-MAC / OMAC / S2V composition values in Python; "
+                           "Poly1305, GHASH and OCB outside their operand tables")
